@@ -246,8 +246,19 @@ def lexStep (s : Str) (st : LexSt) : LexStep :=
       match lookupKeyword text with
       | some k => .tok (mk k n text) { st with loc := loc' } n
       | none => .tok (mk .id n text) { st with loc := loc' } n
-    | .string => .tok (mk .string n (sliceMid 1 1 text)) { st with loc := loc' } n
-    | .fstring => .tok (mk .fstring n (sliceMid 2 1 text)) { st with loc := loc' } n
+    | .string =>
+      -- a newline inside a single-quoted string: warning, and the line bookkeeping follows it
+      let nl := countNl text
+      let st' : LexSt := if nl > 0 then
+          { st with loc := loc', lineno := st.lineno + nl, lineStart := loc' - lastLineLen text }
+        else { st with loc := loc' }
+      .tok (mk .string n (sliceMid 1 1 text)) st' n
+    | .fstring =>
+      let nl := countNl text
+      let st' : LexSt := if nl > 0 then
+          { st with loc := loc', lineno := st.lineno + nl, lineStart := loc' - lastLineLen text }
+        else { st with loc := loc' }
+      .tok (mk .fstring n (sliceMid 2 1 text)) st' n
     | .multilineString =>
       let v := sliceMid 3 3 text
       let nl := countNl v
